@@ -144,3 +144,52 @@ Example C14_repaired_nonvacuous :
          (run P_fixed (env_of [KIfBlock; KLiteral; KSchedule]) FUEL s0 [OExtend 0 [1; 2]]) (OAppend 2 0)) = Some EGen.
 Proof. exact repaired_nonvacuous_. Qed.
 Print Assumptions C14_repaired_nonvacuous.
+
+(* ---------------------------------------------------------------------------------------------
+   Extended operation set (coq/C14/Model2.v): in-place operators `+=` / `*=` on the children list
+   (NOT overridden by ChildrenList: plain list semantics) and slice get / set / delete (refused).
+   Full statement: as above over op2.  False of /repo HEAD (P2_head) because of `+=` and `*=`
+   (C14_refuted_iadd / _imul / _imul_zero); slices are refused without any change for every parameter
+   value (C14_slices_refused); full for parameters recognised by P2_okb (fix2.patch). *)
+From PV Require Import C14.Model2 C14.Proofs2.
+
+Theorem C14_history2_safe_partial : forall P E fuel ops s,
+  Inv E s -> hist_safe2 P E fuel s ops = true ->
+  Inv E (run2 P E fuel s ops) /\ failed_unchanged2 P E fuel s ops.
+Proof. exact history2_safe_. Qed.
+Print Assumptions C14_history2_safe_partial.
+
+Theorem C14_history2_full_when_repaired : forall P E fuel, P2_okb P = true -> forall ops s,
+  Inv E s -> hist_depth_ok2 P E fuel s ops = true ->
+  Inv E (run2 P E fuel s ops) /\ failed_unchanged2 P E fuel s ops.
+Proof. exact history2_full_repaired_. Qed.
+Print Assumptions C14_history2_full_when_repaired.
+
+Theorem C14_slices_refused : forall P E fuel s c xs,
+  step2 P E fuel s (OGetSlice c) = (s, None) /\
+  fst (step2 P E fuel s (OSetSlice c xs)) = s /\ snd (step2 P E fuel s (OSetSlice c xs)) <> None /\
+  step2 P E fuel s (ODelSlice c) = (s, Some EType).
+Proof. exact slices_refused_. Qed.
+Print Assumptions C14_slices_refused.
+
+Theorem C14_refuted_iadd : exists E ops, Inv E s0 /\ ~ Inv E (run2 P2_head E FUEL s0 ops).
+Proof. exact refuted_iadd_. Qed.
+Print Assumptions C14_refuted_iadd.
+
+Theorem C14_refuted_imul : exists E ops, Inv E s0 /\ ~ Inv E (run2 P2_head E FUEL s0 ops).
+Proof. exact refuted_imul_. Qed.
+Print Assumptions C14_refuted_imul.
+
+Theorem C14_refuted_imul_zero : exists E ops, Inv E s0 /\ ~ Inv E (run2 P2_head E FUEL s0 ops).
+Proof. exact refuted_imul_zero_. Qed.
+Print Assumptions C14_refuted_imul_zero.
+
+Example C14_repaired2_nonvacuous :
+  P2_okb P2_fixed = true /\ P2_okb P2_head = false /\
+  kids (run2 P2_fixed (env_of [KSchedule; KReturn]) FUEL s0 [OIAdd 0 [1]]) 0 = [1] /\
+  par (run2 P2_fixed (env_of [KSchedule; KReturn]) FUEL s0 [OIAdd 0 [1]]) 1 = Some 0 /\
+  snd (step2 P2_fixed (env_of [KSchedule; KLiteral]) FUEL s0 (OIAdd 0 [1])) = Some EGen /\
+  snd (step2 P2_fixed (env_of [KSchedule; KReturn]) FUEL s0 (OIMul 0 2)) = Some ENotImpl /\
+  hist_depth_ok2 P2_fixed (env_of [KSchedule; KReturn]) FUEL s0 [OIAdd 0 [1]; OIMul 0 2; ODelSlice 0] = true.
+Proof. exact repaired2_nonvacuous_. Qed.
+Print Assumptions C14_repaired2_nonvacuous.
